@@ -89,9 +89,9 @@ def ev(e, env):
             return base[ev(e.slice, env)]
         except (KeyError, IndexError, TypeError) as ex:
             raise Undecidable("subscript: %s" % ex)
-    if isinstance(e, ast.Call) and isinstance(e.func, ast.Name) and e.func.id in ("bool", "int", "len", "abs", "max", "min", "range", "divmod", "tuple", "list", "sum", "sorted", "reversed") and not e.keywords:
+    if isinstance(e, ast.Call) and isinstance(e.func, ast.Name) and e.func.id in ("bool", "int", "len", "abs", "max", "min", "range", "divmod", "tuple", "list", "sum", "sorted", "reversed", "bin", "str", "hex") and not e.keywords:
         try:
-            return {"bool": bool, "int": int, "len": len, "abs": abs, "max": max, "min": min, "range": range, "divmod": divmod, "tuple": tuple, "list": list, "sum": sum, "sorted": sorted,
+            return {"bool": bool, "int": int, "len": len, "abs": abs, "max": max, "min": min, "range": range, "divmod": divmod, "tuple": tuple, "list": list, "sum": sum, "sorted": sorted, "bin": bin, "str": str, "hex": hex,
                     "reversed": lambda x: tuple(reversed(x))}[e.func.id](*[ev(a, env) for a in e.args])
         except (ZeroDivisionError, ValueError, TypeError) as ex:
             raise Undecidable("builtin %s: %s" % (e.func.id, ex))
@@ -101,7 +101,7 @@ def ev(e, env):
         if sub["__depth__"] > 20:
             raise Undecidable("call depth")
         return call(env["__funcs__"][e.func.id], [ev(a, env) for a in e.args], sub)
-    if isinstance(e, ast.Call) and isinstance(e.func, ast.Attribute) and e.func.attr in ("replace", "startswith", "endswith", "lower", "upper", "split") and not e.keywords:
+    if isinstance(e, ast.Call) and isinstance(e.func, ast.Attribute) and e.func.attr in ("replace", "startswith", "endswith", "lower", "upper", "split", "count", "lstrip", "rstrip", "strip", "zfill") and not e.keywords:
         v = ev(e.func.value, env)
         if isinstance(v, str):
             return getattr(v, e.func.attr)(*[ev(a, env) for a in e.args])
